@@ -227,9 +227,35 @@ func isErrorLike(t types.Type) bool {
 // ---------- CFG ----------
 
 type funcCFG struct {
-	g     *cfg.CFG
-	where map[ast.Node]*cfg.Block // statement/expression node -> block
-	idx   map[ast.Node]int        // position inside the block
+	g       *cfg.CFG
+	where   map[ast.Node]*cfg.Block // statement/expression node -> block
+	idx     map[ast.Node]int        // position inside the block
+	caseTag map[ast.Expr]ast.Expr   // case expression of a tagged switch -> the tag (go/cfg branches on the bare case expression)
+	// expand, when set, gives the returned expression of a predicate helper (`func p(..) bool { return <expr> }`) for a
+	// call of it: the atoms of <expr> are then facts of the edge too (they speak in the helper's own parameter names)
+	expand func(call *ast.CallExpr) ast.Expr
+}
+
+// cfgOf builds the CFG of f with predicate helpers of f's package opened up in edge facts.
+func (c *Ctx) cfgOf(f *Fn) *funcCFG {
+	fc := buildCFG(f.Decl.Body)
+	fc.expand = func(call *ast.CallExpr) ast.Expr {
+		cal := callee(f.Pkg, call)
+		if cal == nil || cal.Pkg() != f.Pkg.Types {
+			return nil
+		}
+		d := c.P.Decl(cal)
+		if d == nil || d.Body == nil || len(d.Body.List) != 1 {
+			return nil
+		}
+		if ret, ok := d.Body.List[0].(*ast.ReturnStmt); ok && len(ret.Results) == 1 {
+			if b, ok := f.Pkg.TypesInfo.TypeOf(ret.Results[0]).Underlying().(*types.Basic); ok && b.Info()&types.IsBoolean != 0 {
+				return ret.Results[0]
+			}
+		}
+		return nil
+	}
+	return fc
 }
 
 func buildCFG(body *ast.BlockStmt) *funcCFG {
@@ -239,7 +265,17 @@ func buildCFG(body *ast.BlockStmt) *funcCFG {
 		}
 		return true
 	})
-	fc := &funcCFG{g: g, where: map[ast.Node]*cfg.Block{}, idx: map[ast.Node]int{}}
+	fc := &funcCFG{g: g, where: map[ast.Node]*cfg.Block{}, idx: map[ast.Node]int{}, caseTag: map[ast.Expr]ast.Expr{}}
+	ast.Inspect(body, func(n ast.Node) bool {
+		if sw, ok := n.(*ast.SwitchStmt); ok && sw.Tag != nil {
+			for _, cl := range sw.Body.List {
+				for _, e := range cl.(*ast.CaseClause).List {
+					fc.caseTag[e] = sw.Tag
+				}
+			}
+		}
+		return true
+	})
 	for _, b := range g.Blocks {
 		for i, n := range b.Nodes {
 			fc.where[n] = b
@@ -442,7 +478,11 @@ func (fc *funcCFG) establishedAt(target ast.Node, establishes func(cond ast.Expr
 		}
 		if len(b.Succs) == 2 && len(b.Nodes) > 0 {
 			if cond, ok := b.Nodes[len(b.Nodes)-1].(ast.Expr); ok {
-				for _, a := range impliedAtoms(cond, edge == 0) {
+				if tag, isCase := fc.caseTag[cond]; isCase {
+					// `switch tag { case cond:` is the condition tag == cond
+					cond = &ast.BinaryExpr{X: tag, Op: token.EQL, Y: cond}
+				}
+				for _, a := range impliedAtomsX(cond, edge == 0, fc.expand, 0) {
 					if establishes(a.e, a.holds) {
 						v = true
 					}
@@ -739,10 +779,389 @@ func impliedAtoms(cond ast.Expr, val bool) []condAtom {
 	return []condAtom{{ast.Unparen(cond), val}}
 }
 
+// impliedAtomsX is impliedAtoms with predicate helpers opened up (depth-bounded).
+func impliedAtomsX(cond ast.Expr, val bool, expand func(*ast.CallExpr) ast.Expr, depth int) []condAtom {
+	atoms := impliedAtoms(cond, val)
+	if expand == nil || depth > 3 {
+		return atoms
+	}
+	out := atoms
+	for _, a := range atoms {
+		if call, ok := a.e.(*ast.CallExpr); ok {
+			if body := expand(call); body != nil {
+				out = append(out, impliedAtomsX(body, a.holds, expand, depth+1)...)
+			}
+		}
+	}
+	return out
+}
+
 // fieldSelNode: fieldSel for an arbitrary node.
 func fieldSelNode(pk *packages.Package, n ast.Node) *types.Var {
 	if e, ok := n.(ast.Expr); ok {
 		return fieldSel(pk, e)
 	}
 	return nil
+}
+
+// soleDef: e names a local variable of f with exactly one definition `x := rhs` (one value on each side), never
+// assigned again, never incremented and never address-taken; the right-hand side is returned (nil otherwise).
+func soleDef(f *Fn, e ast.Expr) ast.Expr {
+	id, ok := ast.Unparen(e).(*ast.Ident)
+	if !ok {
+		return nil
+	}
+	obj, _ := f.Pkg.TypesInfo.Uses[id].(*types.Var)
+	if obj == nil || obj.IsField() || obj.Parent() == nil || obj.Parent() == f.Pkg.Types.Scope() {
+		return nil
+	}
+	var rhs ast.Expr
+	n := 0
+	ast.Inspect(f.Decl, func(nd ast.Node) bool {
+		switch x := nd.(type) {
+		case *ast.AssignStmt:
+			for i, l := range x.Lhs {
+				lid, ok := ast.Unparen(l).(*ast.Ident)
+				if !ok {
+					continue
+				}
+				if f.Pkg.TypesInfo.Defs[lid] == obj || f.Pkg.TypesInfo.Uses[lid] == obj {
+					n++
+					if x.Tok == token.DEFINE && len(x.Lhs) == len(x.Rhs) {
+						rhs = x.Rhs[i]
+					} else {
+						n++
+					}
+				}
+			}
+		case *ast.IncDecStmt:
+			if lid, ok := ast.Unparen(x.X).(*ast.Ident); ok && f.Pkg.TypesInfo.Uses[lid] == obj {
+				n += 2
+			}
+		case *ast.UnaryExpr:
+			if lid, ok := ast.Unparen(x.X).(*ast.Ident); ok && x.Op == token.AND && f.Pkg.TypesInfo.Uses[lid] == obj {
+				n += 2
+			}
+		case *ast.RangeStmt:
+			for _, l := range []ast.Expr{x.Key, x.Value} {
+				if lid, ok := l.(*ast.Ident); ok && (f.Pkg.TypesInfo.Defs[lid] == obj || f.Pkg.TypesInfo.Uses[lid] == obj) {
+					n += 2
+				}
+			}
+		case *ast.ValueSpec:
+			for _, nm := range x.Names {
+				if f.Pkg.TypesInfo.Defs[nm] == obj {
+					n += 2
+				}
+			}
+		}
+		return true
+	})
+	if n == 1 {
+		return rhs
+	}
+	return nil
+}
+
+// unalias follows soleDef while the expression is a local with one definition.
+func unalias(f *Fn, e ast.Expr) ast.Expr {
+	for i := 0; i < 4; i++ {
+		d := soleDef(f, e)
+		if d == nil {
+			break
+		}
+		e = d
+	}
+	return ast.Unparen(e)
+}
+
+// alwaysNonNil: a function of the module every return of which yields, as its (single or last) result, the address of
+// a composite literal, the result of another such function, or of errors.New / fmt.Errorf (AST-level summary; a local
+// with one definition is followed).
+func (c *Ctx) alwaysNonNil(f *types.Func) bool {
+	if c.nonNilMemo == nil {
+		c.nonNilMemo = map[*types.Func]int{}
+	}
+	f = f.Origin()
+	switch c.nonNilMemo[f] {
+	case 1:
+		return true
+	case 2, 3:
+		return false
+	}
+	c.nonNilMemo[f] = 3
+	res := func() bool {
+		if f.Pkg() != nil && !c.P.IsLibPkg(f.Pkg()) {
+			full := f.Pkg().Path() + "." + f.Name()
+			return full == "errors.New" || full == "fmt.Errorf"
+		}
+		fn := c.fnOf(f)
+		if fn == nil || fn.Decl.Body == nil {
+			return false
+		}
+		ok, n := true, 0
+		ast.Inspect(fn.Decl.Body, func(nd ast.Node) bool {
+			if _, isLit := nd.(*ast.FuncLit); isLit {
+				return false
+			}
+			ret, isRet := nd.(*ast.ReturnStmt)
+			if !isRet {
+				return true
+			}
+			n++
+			if len(ret.Results) == 0 {
+				ok = false
+				return true
+			}
+			e := unalias(fn, ret.Results[len(ret.Results)-1])
+			switch x := e.(type) {
+			case *ast.UnaryExpr:
+				if _, isCL := ast.Unparen(x.X).(*ast.CompositeLit); !(x.Op == token.AND && isCL) {
+					ok = false
+				}
+			case *ast.CallExpr:
+				if cal := callee(fn.Pkg, x); cal == nil || !c.alwaysNonNil(cal) {
+					ok = false
+				}
+			default:
+				ok = false
+			}
+			return true
+		})
+		return ok && n > 0
+	}()
+	if res {
+		c.nonNilMemo[f] = 1
+	} else {
+		c.nonNilMemo[f] = 2
+	}
+	return res
+}
+
+// stableExpr renders an expression by the origin of its parts instead of local names: the receiver is "recv", the i-th
+// parameter "param#i", a local with one definition is replaced by that definition, a local defined by a multi-valued
+// call is "result#k of <callee>", a range variable is "elem of <collection>" (stack: the enclosing nodes of e).
+func (c *Ctx) stableExpr(f *Fn, e ast.Expr, stack []ast.Node) string {
+	return c.stableExprD(f, e, stack, 0)
+}
+
+func (c *Ctx) stableExprD(f *Fn, e ast.Expr, stack []ast.Node, depth int) string {
+	e = ast.Unparen(e)
+	if depth > 6 {
+		return exprString(e)
+	}
+	pk := f.Pkg
+	switch x := e.(type) {
+	case *ast.SelectorExpr:
+		if _, isPkg := pk.TypesInfo.Uses[identOf(x.X)].(*types.PkgName); isPkg {
+			return exprString(e)
+		}
+		return c.stableExprD(f, x.X, stack, depth+1) + "." + x.Sel.Name
+	case *ast.StarExpr:
+		return "*" + c.stableExprD(f, x.X, stack, depth+1)
+	case *ast.Ident:
+		obj, _ := pk.TypesInfo.Uses[x].(*types.Var)
+		if obj == nil {
+			return x.Name
+		}
+		switch i := paramIndexOf(f, x); {
+		case i == -2:
+			return "recv"
+		case i >= 0:
+			return fmt.Sprintf("param#%d", i)
+		}
+		if d := soleDef(f, x); d != nil {
+			return c.stableExprD(f, d, stack, depth+1)
+		}
+		// range variable / multi-valued definition
+		res := ""
+		ast.Inspect(f.Decl.Body, func(n ast.Node) bool {
+			switch y := n.(type) {
+			case *ast.RangeStmt:
+				for _, v := range []ast.Expr{y.Key, y.Value} {
+					if vid, ok := v.(*ast.Ident); ok && pk.TypesInfo.Defs[vid] == obj {
+						res = "elem of " + c.stableExprD(f, y.X, stack, depth+1)
+					}
+				}
+			case *ast.AssignStmt:
+				if y.Tok == token.DEFINE && len(y.Rhs) == 1 && len(y.Lhs) > 1 {
+					for k, l := range y.Lhs {
+						if lid, ok := l.(*ast.Ident); ok && pk.TypesInfo.Defs[lid] == obj {
+							if call, ok := ast.Unparen(y.Rhs[0]).(*ast.CallExpr); ok {
+								if cal := callee(pk, call); cal != nil {
+									res = fmt.Sprintf("result#%d of %s", k, cal.Name())
+								}
+							}
+						}
+					}
+				}
+			}
+			return true
+		})
+		if res != "" {
+			return res
+		}
+		return x.Name
+	}
+	return exprString(e)
+}
+
+// stripRef drops dereferences and address-of: `*d`, `&d` and `d` name the same directive for a fact about it.
+func stripRef(e ast.Expr) ast.Expr {
+	for {
+		e = ast.Unparen(e)
+		switch x := e.(type) {
+		case *ast.StarExpr:
+			e = x.X
+			continue
+		case *ast.UnaryExpr:
+			if x.Op == token.AND {
+				e = x.X
+				continue
+			}
+		}
+		return e
+	}
+}
+
+// establishedUpward: the fact about `subj` is established (edge facts, predicate helpers opened) at `site` in f, or --
+// when subj is an unassigned parameter (or the receiver) of f and every use of f is a static call -- at every call
+// site of f about the argument passed, recursively (three levels).
+func (c *Ctx) establishedUpward(f *Fn, site ast.Node, subj ast.Expr, fact func(g *Fn, cond ast.Expr, holds bool, subj ast.Expr) bool, depth int) bool {
+	subj = stripRef(subj)
+	if c.cfgOf(f).establishedAt(site, func(cond ast.Expr, holds bool) bool { return fact(f, cond, holds, subj) }, nil) {
+		return true
+	}
+	if depth >= 3 {
+		return false
+	}
+	i := paramIndexOf(f, subj)
+	if i == -1 || (i >= 0 && paramAssigned(f, subj)) {
+		return false
+	}
+	sites, ok := c.callersOf(f)
+	if !ok || len(sites) == 0 {
+		return false
+	}
+	for _, cs := range sites {
+		arg := argFor(cs, i)
+		if arg == nil || !c.establishedUpward(cs.g, cs.call, arg, fact, depth+1) {
+			return false
+		}
+	}
+	return true
+}
+
+// affineOf writes an integer expression as base + off with locals followed through their one definition (base is nil
+// for a constant).
+func affineOf(f *Fn, e ast.Expr) (base ast.Expr, off int64, ok bool) {
+	e = unalias(f, e)
+	if k, isK := constInt(f.Pkg, e); isK {
+		return nil, k, true
+	}
+	if be, isB := e.(*ast.BinaryExpr); isB && (be.Op == token.ADD || be.Op == token.SUB) {
+		if k, isK := constInt(f.Pkg, be.Y); isK {
+			b, o, ok := affineOf(f, be.X)
+			if !ok {
+				return nil, 0, false
+			}
+			if be.Op == token.SUB {
+				k = -k
+			}
+			return b, o + k, true
+		}
+	}
+	return e, 0, true
+}
+
+// excludesZero: the comparison `cond` having the truth value `holds` rules out base == 0, where base is the integer
+// expression rendered as baseStr (by exprString of the unaliased expression): i == -1 false with i = base-1,
+// base == 0 false, base > 0 true, ...
+func excludesZero(f *Fn, cond ast.Expr, holds bool, baseStr string) bool {
+	be, ok := ast.Unparen(cond).(*ast.BinaryExpr)
+	if !ok {
+		return false
+	}
+	lb, lo, ok1 := affineOf(f, be.X)
+	rb, ro, ok2 := affineOf(f, be.Y)
+	if !ok1 || !ok2 {
+		return false
+	}
+	op := be.Op
+	if lb == nil && rb != nil {
+		lb, lo, rb, ro = rb, ro, lb, lo
+		switch op {
+		case token.LSS:
+			op = token.GTR
+		case token.GTR:
+			op = token.LSS
+		case token.LEQ:
+			op = token.GEQ
+		case token.GEQ:
+			op = token.LEQ
+		}
+	}
+	if lb == nil || rb != nil || exprString(lb) != baseStr {
+		return false
+	}
+	// truth of (0 + lo) op ro
+	var at0 bool
+	switch op {
+	case token.EQL:
+		at0 = lo == ro
+	case token.NEQ:
+		at0 = lo != ro
+	case token.LSS:
+		at0 = lo < ro
+	case token.LEQ:
+		at0 = lo <= ro
+	case token.GTR:
+		at0 = lo > ro
+	case token.GEQ:
+		at0 = lo >= ro
+	default:
+		return false
+	}
+	return at0 != holds
+}
+
+// definingCall: the call that defines the local e, as its only definition, in a single- or multi-valued `:=`
+// (k is the position of e among the results).
+func definingCall(f *Fn, e ast.Expr) (call *ast.CallExpr, k int) {
+	id := identOf(e)
+	if id == nil {
+		return nil, 0
+	}
+	obj := f.Pkg.TypesInfo.Uses[id]
+	if obj == nil {
+		obj = f.Pkg.TypesInfo.Defs[id]
+	}
+	n := 0
+	ast.Inspect(f.Decl, func(nd ast.Node) bool {
+		as, ok := nd.(*ast.AssignStmt)
+		if !ok {
+			return true
+		}
+		for i, l := range as.Lhs {
+			lid := identOf(l)
+			if lid == nil || (f.Pkg.TypesInfo.Defs[lid] != obj && f.Pkg.TypesInfo.Uses[lid] != obj) {
+				continue
+			}
+			n++
+			if as.Tok == token.DEFINE && len(as.Rhs) == 1 {
+				if cl, ok := ast.Unparen(as.Rhs[0]).(*ast.CallExpr); ok {
+					call, k = cl, i
+				}
+			} else if as.Tok == token.DEFINE && len(as.Rhs) == len(as.Lhs) {
+				if cl, ok := ast.Unparen(as.Rhs[i]).(*ast.CallExpr); ok {
+					call, k = cl, 0
+				}
+			}
+		}
+		return true
+	})
+	if n != 1 {
+		return nil, 0
+	}
+	return call, k
 }
